@@ -958,7 +958,35 @@ func registerStubs(w *World) {
 	S["strconv.Atoi"] = func(in *Interp, fn *ssa.Function, a []Value) Value {
 		s, ok := in.concStr(a[0])
 		if !ok {
-			in.unsupported("Atoi on symbolic text")
+			// symbolic digits (short): value by positional arithmetic
+			sv := a[0].(*StrV)
+			in.needBytes(sv, "Atoi")
+			n := sv.Len()
+			if n == 0 || n > 17 {
+				in.unsupported("Atoi on long symbolic text")
+			}
+			i := 0
+			neg := false
+			if in.branch(Eq(sv.Byte(0), IntC('-'))) {
+				neg, i = true, 1
+			} else if in.branch(Eq(sv.Byte(0), IntC('+'))) {
+				i = 1
+			}
+			if i >= n {
+				return TupleV{IntC(0), in.nativeErr(strconv.ErrSyntax)}
+			}
+			v := IntC(0)
+			for ; i < n; i++ {
+				b := sv.Byte(i)
+				if !in.branch(And(Ge(b, IntC('0')), Le(b, IntC('9')))) {
+					return TupleV{IntC(0), in.nativeErr(strconv.ErrSyntax)}
+				}
+				v = Add(Mul(v, IntC(10)), Sub(b, IntC('0')))
+			}
+			if neg {
+				v = Neg(v)
+			}
+			return TupleV{v, NilIface}
 		}
 		key := s
 		neg := false
